@@ -48,6 +48,27 @@ CLAIMS = {
               "exemption at every reader of the index flag bits. Whole-value tx->PSET->tx equality is decided per field flow only."),
         technique="abstract interpretation over enum discriminants (exhaustive decision table) + field-flow composition of sibling converters",
         design_ref="§4 C08"),
+    "C03": dict(
+        category="other",
+        text=("Decides the commitment structure of the legacy, segwit-v0 and taproot signature hashes for every transaction, index and "
+              "hash type at once: the ordered list of (committed value, sink, wire type, guard set) extracted from the MIR of the three "
+              "*_signing_data_to functions is compared row by row with spec tables (36 taproot rows incl. the Elements extensions, 18 "
+              "BIP143+issuance rows with mutually exclusive zero-hash alternatives, the legacy construction: SINGLE-bug constant, "
+              "ANYONECANPAY input selection, script_sig placement, sequence zeroing, outputs by type, trailing LE hash type); plus the "
+              "contents of the common/segwit/taproot hash caches, the outpoint flag byte and the TapLeaf preimage. Digest equality "
+              "with an independent implementation is not decided."),
+        technique="ordered guarded event-sequence extraction from MIR compared with specification tables",
+        design_ref="§4 C03, Appendix B"),
+    "C13": dict(
+        category="other",
+        text=("Decides C13 by a purity argument checked on the code: every use of all-prevouts data in the taproot algorithm is "
+              "dominated by the !ANYONECANPAY edge (so Prevouts::One suffices under ANYONECANPAY and is an error otherwise), the "
+              "transitive field read-set of the three cache builders is disjoint from the only place the API hands out mutably "
+              "(the script witness via witness_mut), no other public method returns &mut, the caches are written only by new() and by "
+              "get_or_insert_with in their accessor, and the Prevouts decision tables are as specified. Hence every cached value is "
+              "a function of data no API can change and query order cannot matter."),
+        technique="dominance rule on call sites + transitive read-set vs mutable hand-out set + who-may-write rule + decision tables",
+        design_ref="§4 C13"),
 }
 
 NOT_YET = "rule set designed in DESIGN.md but not built yet in this round; no claim is made"
